@@ -37,6 +37,13 @@ RESERVED = {"let", "forall", "exists", "as", "_", "!", "par", "true", "false", "
             "xor", "=>", "=", "distinct", "ite", "Bool", "Int", "Real", "BitVec", "Array"}
 
 
+BUILTIN_OPS = {"not", "and", "or", "xor", "=>", "=", "distinct", "ite", "+", "-", "*", "<=", "<", ">=", ">",
+               "div", "mod", "abs", "concat", "bvnot", "bvneg", "bvand", "bvor", "bvxor", "bvnand", "bvnor",
+               "bvxnor", "bvadd", "bvsub", "bvmul", "bvudiv", "bvurem", "bvsdiv", "bvsrem", "bvsmod", "bvshl",
+               "bvlshr", "bvashr", "bvcomp", "bvult", "bvule", "bvugt", "bvuge", "bvslt", "bvsle", "bvsgt",
+               "bvsge", "to_real", "to_int", "select", "store"}
+
+
 class Level(object):
     __slots__ = ("sorts", "funs", "asserts")
 
@@ -355,12 +362,24 @@ class RefSolver(object):
             if rows > self.max_rows:
                 self.mode = "unknown"
                 return "unknown"
+        # uninterpreted functions: one pseudo-constant per argument tuple (a function table)
+        names = [n for n, _ in consts]
         for lv in self.levels:
             for n, (args, res) in lv.funs.items():
-                if args:
+                if not args:
+                    continue
+                adoms = [self._domain(a) for a in args]
+                rdom = self._domain(res)
+                if rdom is None or any(d is None for d in adoms):
                     self.mode = "unknown"
                     return "unknown"
-        names = [n for n, _ in consts]
+                for tup in itertools.product(*adoms):
+                    names.append((n, tup))
+                    doms.append(rdom)
+                    rows *= len(rdom)
+                    if rows > self.max_rows:
+                        self.mode = "unknown"
+                        return "unknown"
         fns = [fn for _, fn in self.live_asserts()]
         models = []
         for vals in itertools.product(*doms):
@@ -551,7 +570,9 @@ class RefSolver(object):
         if user is not None:
             if not user[0]:
                 raise Illegal("constant %s applied to arguments" % op)
-            raise Unsupported()
+            if tuple(sorts) != tuple(user[0]):
+                raise Illegal("function %s applied to sorts %s, declared with %s" % (op, sorts, user[0]))
+            return user[1], (lambda m, l: m[(op, tuple(f(m, l) for f in fs))])
         if head.quoted:
             raise Illegal("symbol %s used but not declared in scope" % op)
 
@@ -701,6 +722,8 @@ class RefSolver(object):
                     return x > y
                 return x >= y
             return BOOL, rel
+        if op not in BUILTIN_OPS:
+            raise Illegal("symbol %s used but not declared in scope" % op)
         raise Illegal("unknown or ill-sorted operator %s with argument sorts %s" % (op, sorts))
 
 
